@@ -48,7 +48,7 @@ func (e *Engine) serviceTypes() map[string]bool {
 					continue
 				}
 				k := typeKey(tn.Type())
-				if svc[k] {
+				if svc[k] || e.transientType(tn) {
 					continue
 				}
 				for i := 0; i < st.NumFields(); i++ {
@@ -62,6 +62,164 @@ func (e *Engine) serviceTypes() map[string]bool {
 		}
 	}
 	return svc
+}
+
+// mentionsType: t is, points to, or is built from (slice, array, map, chan, struct field, function result) the named type n.
+func mentionsType(t types.Type, n *types.TypeName, depth int) bool {
+	if depth > 6 {
+		return false
+	}
+	switch u := t.(type) {
+	case *types.Named:
+		if u.Obj() == n {
+			return true
+		}
+		for i := 0; u.TypeArgs() != nil && i < u.TypeArgs().Len(); i++ {
+			if mentionsType(u.TypeArgs().At(i), n, depth+1) {
+				return true
+			}
+		}
+		return false
+	case *types.Pointer:
+		return mentionsType(u.Elem(), n, depth+1)
+	case *types.Slice:
+		return mentionsType(u.Elem(), n, depth+1)
+	case *types.Array:
+		return mentionsType(u.Elem(), n, depth+1)
+	case *types.Chan:
+		return mentionsType(u.Elem(), n, depth+1)
+	case *types.Map:
+		return mentionsType(u.Key(), n, depth+1) || mentionsType(u.Elem(), n, depth+1)
+	case *types.Struct:
+		for i := 0; i < u.NumFields(); i++ {
+			if mentionsType(u.Field(i).Type(), n, depth+1) {
+				return true
+			}
+		}
+	case *types.Signature:
+		for i := 0; i < u.Params().Len(); i++ {
+			if mentionsType(u.Params().At(i).Type(), n, depth+1) {
+				return true
+			}
+		}
+		for i := 0; i < u.Results().Len(); i++ {
+			if mentionsType(u.Results().At(i).Type(), n, depth+1) {
+				return true
+			}
+		}
+	}
+	return false
+}
+
+// transientType: a struct type that the reviewed tree does not have, that is unexported, and whose values provably live
+// no longer than the call that builds them: no package-level variable, no field of another (non-transient) named type
+// and no function-typed declaration mentions it, no value of it is converted to an interface, stored through a pointer
+// that is not a local cell, sent on a channel, captured by a `go` / `defer`red closure or returned by an exported
+// function. Such a type is the "method object" of a refactoring (the locals of one long function turned into the fields
+// of a struct that lives for one call); holding a Keeper does not make it a long-lived service value.
+func (e *Engine) transientType(tn *types.TypeName) bool {
+	if e.transient == nil {
+		e.transient = map[*types.TypeName]bool{}
+	}
+	if v, ok := e.transient[tn]; ok {
+		return v
+	}
+	e.transient[tn] = false
+	res := e.computeTransient(tn)
+	e.transient[tn] = res
+	return res
+}
+
+func (e *Engine) computeTransient(tn *types.TypeName) bool {
+	if tn.Exported() || tn.Pkg() == nil || !smPkgs[tn.Pkg().Path()] {
+		return false
+	}
+	if baselineTypes[alias(tn.Pkg().Path())+"."+tn.Name()] {
+		return false
+	}
+	if _, ok := tn.Type().Underlying().(*types.Struct); !ok {
+		return false
+	}
+	// declarations
+	for p := range smPkgs {
+		pkg := e.ByPath[p]
+		if pkg == nil {
+			continue
+		}
+		sc := pkg.Types.Scope()
+		for _, name := range sc.Names() {
+			switch o := sc.Lookup(name).(type) {
+			case *types.Var:
+				if mentionsType(o.Type(), tn, 0) {
+					return false
+				}
+			case *types.TypeName:
+				if o == tn {
+					continue
+				}
+				if mentionsType(o.Type().Underlying(), tn, 0) && !e.transientType(o) {
+					return false
+				}
+			case *types.Func:
+				if o.Exported() {
+					sig := o.Type().(*types.Signature)
+					if mentionsType(sig, tn, 0) {
+						return false
+					}
+				}
+			}
+		}
+	}
+	is := func(t types.Type) bool { return mentionsType(t, tn, 0) }
+	for _, fn := range e.SMFuncs() {
+		// exported methods of other types returning it
+		if fn.Object() != nil && fn.Object().Exported() && is(fn.Signature) {
+			if recv := fn.Signature.Recv(); recv == nil || typeKey(recv.Type()) != typeKey(tn.Type()) {
+				return false
+			}
+		}
+		for _, b := range fn.Blocks {
+			for _, in := range b.Instrs {
+				switch x := in.(type) {
+				case *ssa.MakeInterface:
+					if is(x.X.Type()) {
+						return false
+					}
+				case *ssa.Send:
+					if is(x.X.Type()) {
+						return false
+					}
+				case *ssa.Go:
+					return false
+				case *ssa.Store:
+					if !is(x.Val.Type()) {
+						continue
+					}
+					// storing a value of the type: only into local cells (possibly fields of local cells of transient types)
+					a := x.Addr
+					for {
+						if fa, ok := a.(*ssa.FieldAddr); ok {
+							a = fa.X
+							continue
+						}
+						if ia, ok := a.(*ssa.IndexAddr); ok {
+							a = ia.X
+							continue
+						}
+						break
+					}
+					if _, ok := a.(*ssa.Alloc); !ok {
+						return false
+					}
+				case *ssa.MapUpdate:
+					if is(x.Value.Type()) || is(x.Key.Type()) {
+						return false
+					}
+				}
+			}
+		}
+	}
+	return true
 }
 
 type memRoot struct {
